@@ -241,15 +241,15 @@ def r3(ctx, rep):
     # sibling: create_filter_by_row_number builds the same pair
     g = syn.fn("preprocess::create_filter_by_row_number", crate="prqlc")
     node = None
+    Ag = __import__("alpha").Inliner(g)
     for n in walk(g["body"]):
-        if n.get("k") == "if" and show(n["c"]) == "is_unsorted":
+        # (the test inlined: `sort.is_empty()` under any local name or none)
+        if n.get("k") == "if" and Ag.show(n["c"]) == "sort.is_empty()":
             node = n
     if node is None:
-        raise AnchorMissing("create_filter_by_row_number: `if is_unsorted`")
+        raise AnchorMissing("create_filter_by_row_number: `if sort.is_empty()`")
     c2, t2, e2 = frame_pair(node)
-    un = [n for n in g["body"]["s"] if n.get("k") == "local" and show(n["pat"]) == "is_unsorted"]
-    rep.check(t2 == ("Rows", None, None) and e2[0] == "Range" and e2[1] == "None" and e2[2] is not None and "int_expr(0)" in e2[2]
-              and bool(un) and show(un[0]["init"]) == "sort.is_empty()", "sibling:row_number",
+    rep.check(t2 == ("Rows", None, None) and e2[0] == "Range" and e2[1] == "None" and e2[2] is not None and "int_expr(0)" in e2[2], "sibling:row_number",
               f"create_filter_by_row_number must give ROW_NUMBER the default frame (so that it is elided); found {t2} / {e2}", file=g["file"], line=node["l"], fn=g["path"])
     # WindowFrame::default (no `window` given) = whole partition
     d = [x for x in syn.fns if x["crate"] == "prqlc" and x.get("self_short") == "WindowFrame" and x["name"] == "default"]
